@@ -25,6 +25,8 @@ claimed = {
          "parked-writer schedules from TLC replayed through every read entry point", "5"),
  "C10": (MC, "TLC evaluates the grammar predicate of spec/FoxPattern.tla (written on the character sequence, not as the parser's state machine) on every string over {/ a . { } * - 1} up to a bounded length under three parameter-limit configurations and checks the routability theorem for every accepted pattern; the real registration must accept exactly the listed strings (Handle, NewRoute, Delete agree, never a panic) and route every instantiation with the prescribed parameters. Long random patterns around the 63/255 limits are recorded from the real code and validated by TLC (Obs_Pattern); arbitrary bytes for crash-freedom.",
          "TLC-enumerated grammar verdicts and instantiations replayed on the real router; recorded verdicts validated by TLC", "5"),
+ "C12": (MC, "The context pool is modelled as a set of stale contexts any request may pick from (spec/FoxContext.tla); the observation prescribed for a request shape mentions only the request's own token, and ClonesStable is checked by TLC. TLC enumerates every sequence of at most three request shapes (direct, ignored trailing slash, redirect, 404/405/OPTIONS, manual Lookup, Lookup+Clone, CloneWith, Clone) with and without a tree replacement before each; each is replayed with GOMAXPROCS(1) and a unique token in every observable field, every getter is read at handler entry, clones are re-read after every later request, then the sequences are mixed from 16 goroutines.",
+         "TLC-enumerated request-shape sequences replayed with per-request tokens in every observable field", "5"),
  "C13": (MC, "TLC enumerates every configuration of global middleware (scope masks, DefaultOptions) x route lists x replacement lists, checks the each-once and route-specific-inside theorems of spec/FoxMiddleware.tla and prescribes the chain of each handler kind; identity-tracing middleware on the real router must be entered and left in exactly that order for the five kinds, after Update, through Route.Handle/HandleMiddleware, and for routes created concurrently (harness built with -race; a race report is a violation).",
          "TLC-enumerated middleware configurations replayed with tracing middleware; concurrent NewRoute under the race detector", "5"),
  "C14": (MC, "TLC explores every call sequence up to a bound on the recorder model (WriteHeader incl. informational/101/repeated, Write/WriteString fully/partially/not accepted, ReadFrom with failing source or destination, Flush, Hijack, capability calls, String/Blob/Stream/Redirect) for four capability sets of the underlying writer and checks AtMostOneFinal, StatusIsFirstFinal, SizeIsAccepted, WrittenIff, NoHeaderAfterBody; every edge is replayed on the real recorder over purpose-built underlying writers that log what they receive and fail on demand.",
@@ -33,6 +35,8 @@ claimed = {
          "TLC-enumerated panic cases replayed on the real Recovery middleware with a capturing log handler", "5"),
  "C17": (MC, "TLC checks idempotence, canonicity, fixed point and the trailing-slash rule of the reference Clean on every string over {/ . a % rune} up to a bounded length and emits (input, canonical form) pairs compared with fox.CleanPath; long random inputs crossing the 128-byte buffer are recorded from the real code and validated by TLC (Obs_Clean).",
          "TLC-enumerated CleanPath vectors replayed; recorded outputs validated by TLC", "5"),
+ "C18": (MC, "TLC enumerates every abstract header (lines x entries over the classes public, private-net, loopback, custom-range, junk, unspecified, empty), prescribes the designated entry for every strategy and parameter (spec/FoxClientIP.tla) and checks the prefix-independence theorem for every attacker prefix; each header is concretised from a rendering table (ports, brackets, zones, quotes, Forwarded parameters, whitespace) labelled with the address it denotes, and resolved through a real Context for X-Forwarded-For and Forwarded. The built-in range tables are read through a verif accessor and every range validated by TLC against the non-global blocks (Obs_Ranges).",
+         "TLC-enumerated abstract headers concretised and resolved by the real resolvers; default ranges validated by TLC", "5"),
  "C19": (MC, "TLC folds every sequence of global options x route options (repeated, contradictory, nil resolver, invalid annotation keys) with last-wins semantics (spec/FoxOptions.tla) and prescribes the route configuration, the error class and the resolver in force per handler kind; replayed through New/Handle/NewRoute/Update, the Route accessors, Stats and Context.ClientIP inside every handler kind; plus accessor consistency for patterns tokenised by FoxPattern and a table of invalid options that must return errors, never panic.",
          "TLC-enumerated option sequences replayed on the real router and routes", "5"),
  "C20": (MC, "TLC enumerates handler behaviour (status classes and boundaries, implicit 200, nothing written, Location) x resolver configuration (none/ok/failing, per-route override) x handler kind and prescribes the record (spec/FoxLogger.tla); replayed with a capturing slog handler: exactly one record after the handler, level, message, attributes, location, response identical with and without the middleware, panics pass through.",
